@@ -96,6 +96,64 @@ theorem watchExpiration_inv2 {s : AState} (h : Inv2 s) (e : Nat)
 
 theorem resumeActs_some (st : State) : resumeActs st ≠ none := by cases st <;> decide
 
+def waitsConfB (st : State) : Bool :=
+  match st with
+  | .pendingOpen | .pendingUpdate | .pendingBatch | .expiredPendingUpdate => true
+  | _ => false
+
+/-- only clauses of states that wait for a confirmation re-register the expiry directly, and those clauses
+do not go through `handleStateOpen` -/
+def rearmTbl (st : State) : Bool :=
+  match resumeActs st with
+  | none => true
+  | some acts => !acts.contains "WatchAccountExpiration" || (waitsConfB st && !acts.contains "handleStateOpen")
+
+theorem rearmTbl_ok (st : State) : rearmTbl st = true := by cases st <;> decide
+
+theorem watchers_acct (s : AState) (a : Acct) (acts : List String) (h : acts.contains "handleStateOpen" = false) :
+    (watchers s a acts).acct = s.acct := by
+  unfold watchers
+  simp only [h, Bool.false_eq_true, if_false]
+  repeat' split
+  all_goals rfl
+
+theorem expiryRearm_inv2 (s0 : AState) (a : Acct) (acts : List String) (ha : s0.acct = some a)
+    (hacts : resumeActs a.state = some acts) (h : Inv2 (watchers s0 a acts)) :
+    Inv2 (expiryRearm (watchers s0 a acts) a acts) := by
+  unfold expiryRearm
+  split
+  · rename_i hc
+    have htab := rearmTbl_ok a.state
+    simp only [rearmTbl, hacts, hc, Bool.not_true, Bool.false_or, Bool.and_eq_true] at htab
+    have hno : acts.contains "handleStateOpen" = false := by simpa using htab.2
+    apply watchExpiration_inv2 h
+    intro b hb
+    rw [watchers_acct s0 a acts hno, ha] at hb
+    have : b = a := (Option.some.inj hb).symm
+    subst this
+    intro ho
+    rw [ho] at htab
+    simp [waitsConfB] at htab
+  · exact h
+
+/-- whenever the `resumeAccount` clause of a (funded) state succeeds, the account is watched for what its
+state waits for – whatever the registry looked like before (restart: empty; watch-matched: cancelled) -/
+theorem resumeRest_inv2 (s : AState) (a : Acct) (r : Bool) (ha : s.acct = some a)
+    (hok : (resumeRest s a r).2 = .ok) : Inv2 (resumeRest s a r).1 := by
+  unfold resumeRest at hok ⊢
+  split at hok
+  · simp at hok
+  · rename_i acts hacts
+    simp only [hacts] at hok ⊢
+    split
+    · rename_i hrb
+      have hf := rebroadcast_frame s a r acts
+      exact expiryRearm_inv2 _ a acts (hf.1.trans ha) hacts (watchers_inv2 _ a acts (hf.1.trans ha) hacts)
+    · rename_i hrb
+      simp only [hrb, if_false] at hok
+      first | exact absurd hok hrb | skip
+
+
 /-- with the record consistent (I1) the rebroadcast part of a clause never fails -/
 theorem rebroadcast_ok (s : AState) (a : Acct) (r : Bool) (acts : List String)
     (hacts : resumeActs a.state = some acts)
@@ -154,7 +212,8 @@ theorem resumeRest_inv2' (s : AState) (a : Acct) (r : Bool) (ha : s.acct = some 
     simp only []
     have hok := rebroadcast_ok s a r acts hacts h2 h3
     simp only [hok, if_true]
-    exact watchers_inv2 _ a acts ((rebroadcast_frame s a r acts).1.trans ha) hacts
+    exact expiryRearm_inv2 _ a acts ((rebroadcast_frame s a r acts).1.trans ha) hacts
+      (watchers_inv2 _ a acts ((rebroadcast_frame s a r acts).1.trans ha) hacts)
 
 theorem fundOrLocate_w {s s' : AState} {a : Acct} {r1 r2 fee : Bool} {f : Option (Nat × Nat)}
     {acts : List String} {t : Tx} (h : fundOrLocate s a r1 r2 fee f acts = .got s' t) :
@@ -168,6 +227,42 @@ theorem fundOrLocate_w {s s' : AState} {a : Acct} {r1 r2 fee : Bool} {f : Option
   · repeat' split at h
     all_goals (try (simp at h))
     rw [← h.1]; exact ⟨rfl, rfl⟩
+
+/-- `resumeAccount`: whenever it succeeds the stored account is adequately watched -/
+theorem resume_inv2 (s : AState) (a : Acct) (r1 r2 fee : Bool) (f : Option (Nat × Nat))
+    (ha : a.state ≠ .initiated → s.acct = some a)
+    (hok : (resume s a r1 r2 fee f).2 = .ok) : Inv2 (resume s a r1 r2 fee f).1 := by
+  unfold resume at hok ⊢
+  split
+  · rename_i hinit
+    simp only [hinit, if_true] at hok
+    have hft := initiated_fallthrough
+    split
+    · rename_i hn; simp only [hn] at hok; simp at hok
+    · rename_i acts hacts
+      simp only [hacts] at hok hft
+      split
+      · rename_i r hr; simp only [hr] at hok
+        -- a failed funding: the result is not ok only if r ≠ ok; r is never ok
+        unfold fundOrLocate at hr
+        simp only [] at hr
+        repeat' split at hr
+        all_goals (simp at hr)
+        all_goals (subst hr; simp at hok)
+      · rename_i hc; simp only [hc] at hok; simp at hok
+      · rename_i s' t hg
+        simp only [hg] at hok
+        split
+        · rename_i hl; simp only [hl] at hok; simp at hok
+        · rename_i idx hl
+          simp only [hl, hft, if_true] at hok ⊢
+          apply resumeRest_inv2 _ _ _ _ hok
+          show some (Acct.stored _) = _
+          rw [stored_of_live] <;> simp
+  · rename_i hinit
+    simp only [hinit, if_false] at hok
+    exact resumeRest_inv2 s a r1 (ha hinit) hok
+
 
 /-- `resumeAccount` (any flags): afterwards the stored account is watched for what its state waits for.
 `hs`: for a not yet funded record the caller's state is fine as it is (nothing to watch). -/
@@ -490,5 +585,6 @@ theorem Inv2.step {s : AState} (h : Inv2 s) (j : Inv1 s) (op : Op) (henv : EnvOK
     · rename_i a ha
       exact resume_stored_inv2 _ (Inv1.setWB j {} 0) a ha _ _ _ _
   | recover a known => exact absurd henv id
+  | flush => exact inv2_congr h rfl rfl rfl rfl
 
 end Pool.C08
